@@ -56,6 +56,9 @@ type binding struct {
 	// the package configures them).
 	real    realFactory
 	version uint16 // ProtocolOptions.Version handed to real
+	// realKit builds the real object with the callbacks / API hooks the
+	// "accepts the whole specification" pass needs (nil: real, no hooks).
+	realKit realKitFactory
 }
 
 func (b *binding) sym(name string) *symBinding {
@@ -335,6 +338,9 @@ func bindings() []*binding {
 	for _, b := range bs {
 		if b.real == nil {
 			b.real = exportedReal[b.id]
+		}
+		if b.realKit == nil {
+			b.realKit = realKits[b.id]
 		}
 	}
 	return bs
